@@ -24,7 +24,7 @@ RULE = ('histories of 2-12 solve() calls on one instance for 5 configurations (d
 SHARDS = {'quick': 16, 'thorough': 16}
 NHIST = {'quick': 4000, 'thorough': 150000}
 MIN_NONTRIVIAL = {'quick': 1500, 'thorough': 60000}
-TIME_CAP = {'quick': 50, 'thorough': 800}
+TIME_CAP = {'quick': 300, 'thorough': 3600}
 CONFIGS = ['default', 'string-atom', 'custom-operators', 'unit-parser', 'subset-custom-order']
 FAIL_KINDS = ['unknown-atom', 'missing-operand', 'unbalanced-open', 'unbalanced-close', 'arity', 'nested-argument', 'atom-ctor']
 REQUIRED_CLASSES = (['cfg-' + c for c in CONFIGS] + ['fail-' + k for k in FAIL_KINDS] +
